@@ -45,6 +45,40 @@ std::vector<const SyntaxNode*> Disambiguator::persistentAmbiguities() const
     return inconclusiveDisambigs_;
 }
 
+namespace {
+
+// The precedence of the operator of a binary expression (0 if not one that
+// the operator of a cast/binary ambiguity is to be compared against).
+int precedenceOf(SyntaxKind exprK)
+{
+    switch (exprK) {
+        case SyntaxKind::MultiplyExpression:
+        case SyntaxKind::DivideExpression:
+        case SyntaxKind::ModuleExpression:
+            return 10;
+        case SyntaxKind::AddExpression:
+        case SyntaxKind::SubstractExpression:
+            return 9;
+        case SyntaxKind::LeftShiftExpression:
+        case SyntaxKind::RightShiftExpression:
+            return 8;
+        case SyntaxKind::LessThanExpression:
+        case SyntaxKind::LessThanOrEqualExpression:
+        case SyntaxKind::GreaterThanExpression:
+        case SyntaxKind::GreaterThanOrEqualExpression:
+            return 7;
+        case SyntaxKind::EqualsExpression:
+        case SyntaxKind::NotEqualsExpression:
+            return 6;
+        case SyntaxKind::BitwiseANDExpression:
+            return 5;
+        default:
+            return 0;
+    }
+}
+
+} // anonymous
+
 template <class ExprT>
 SyntaxVisitor::Action Disambiguator::visitMaybeAmbiguousExpression(ExprT* const& node)
 {
@@ -64,6 +98,7 @@ SyntaxVisitor::Action Disambiguator::visitMaybeAmbiguousExpression(ExprT* const&
 
                 case Disambiguation::KeepBinaryExpression:
                     node_P = ambigNode->binExpr_;
+                    binExprsOfAmbigs_.insert(ambigNode->binExpr_);
                     visit(node_P);
                     break;
 
@@ -80,6 +115,24 @@ SyntaxVisitor::Action Disambiguator::visitMaybeAmbiguousExpression(ExprT* const&
         default:
             visit(node);
             break;
+    }
+
+    // The right operand of the binary alternative of an ambiguity is a mere
+    // cast-expression (so that both alternatives span the same tokens): an
+    // operator of higher precedence that follows it was made the parent of
+    // the ambiguity, `(x) - y * z' being shaped as `((x) - y) * z'.
+    if (auto parentExpr = node_P->asBinaryExpression()) {
+        auto binExpr = parentExpr->leftExpr_
+                ? parentExpr->leftExpr_->asBinaryExpression()
+                : nullptr;
+        if (binExpr
+                && binExprsOfAmbigs_.count(binExpr)
+                && precedenceOf(parentExpr->kind()) > precedenceOf(binExpr->kind())
+                && precedenceOf(binExpr->kind()) > 0) {
+            parentExpr->leftExpr_ = binExpr->rightExpr_;
+            binExpr->rightExpr_ = parentExpr;
+            node_P = binExpr;
+        }
     }
 
     return Action::Skip;
